@@ -23,7 +23,7 @@ pub fn property() -> Property {
             Part {
                 name: "static",
                 quick: 90_000,
-                thorough: 3_000_000,
+                thorough: 12_000_000,
                 single_shard: false, supplementary: false,
                 run: |cfg| run_part(cfg, gen::raw_pos(100), |r| PosCase { fen: gen::position(r, ClockDomain::EngineQuiet).fen() }, check_static),
                 replay: |v| replay_case::<PosCase, _>(v, check_static),
@@ -31,7 +31,7 @@ pub fn property() -> Property {
             Part {
                 name: "search",
                 quick: 1_600,
-                thorough: 20_000,
+                thorough: 120_000,
                 single_shard: false, supplementary: false,
                 run: |cfg| run_part(cfg, (prop_oneof![3 => gen::raw_pos(70), 2 => gen::raw_pos_endgames()], 1..=3u32, 0..4u8, any::<u16>()), |(r, d, h, x)| search_case(r, *d, *h, *x), check_search),
                 replay: |v| replay_case::<SearchCase, _>(v, check_search),
@@ -39,7 +39,7 @@ pub fn property() -> Property {
             Part {
                 name: "terminal",
                 quick: 20_000,
-                thorough: 300_000,
+                thorough: 1_500_000,
                 single_shard: false, supplementary: false,
                 run: |cfg| run_part(cfg, (gen::raw_pos_endgames(), any::<u32>()), |(r, f)| TerminalCase { fen: gen::position(r, ClockDomain::EngineQuiet).fen(), fullmove: 1 + f % 2000 }, check_terminal),
                 replay: |v| replay_case::<TerminalCase, _>(v, check_terminal),
